@@ -21,7 +21,7 @@ def ValidIn (C : Model → Valuation → Prop) (M : Model) (th : Thm) : Prop :=
 
 /-- what the checker has established about a sequent it accepted, relative to the class `C` -/
 structure GoodIn (C : Model → Valuation → Prop) (th : Thm) : Prop where
-  wt : Thm.checkThmType th = true
+  wt : Thm.checkThmTypeSig th = true
   valid : ∀ M : Model, ValidIn C M th
 
 /-- the closure conditions the rule proofs need -/
@@ -37,7 +37,7 @@ variable {C : Model → Valuation → Prop}
 
 /-- frame for the rules with two premises whose hypotheses are merged -/
 theorem good_two_in (th1 th2 : Thm) (p : Term) (h1 : GoodIn C th1) (h2 : GoodIn C th2)
-    (hwt : Thm.checkThmType (Thm.mk' p [th1.hyps, th2.hyps]) = true)
+    (hwt : Thm.checkThmTypeSig (Thm.mk' p [th1.hyps, th2.hyps]) = true)
     (hval : ∀ M ρ, Admissible M ρ → holds M ρ th1.prop → holds M ρ th2.prop → holds M ρ p) :
     GoodIn C (Thm.mk' p [th1.hyps, th2.hyps]) := by
   refine ⟨hwt, ?_⟩
@@ -56,7 +56,7 @@ theorem good_two_in (th1 th2 : Thm) (p : Term) (h1 : GoodIn C th1) (h2 : GoodIn 
 
 /-- frame for the rules with one premise that keep its hypotheses -/
 theorem good_one_in (th1 : Thm) (p : Term) (h1 : GoodIn C th1)
-    (hwt : Thm.checkThmType ⟨th1.hyps, p⟩ = true)
+    (hwt : Thm.checkThmTypeSig ⟨th1.hyps, p⟩ = true)
     (hval : ∀ M ρ, Admissible M ρ → holds M ρ th1.prop → holds M ρ p) :
     GoodIn C ⟨th1.hyps, p⟩ := by
   refine ⟨hwt, ?_⟩
@@ -78,14 +78,14 @@ theorem GoodIn.prop_sig {th : Thm} (h : GoodIn C th) : sigOK th.prop = true :=
 
 
 theorem assume_sound_in (a : Term)
-    (hwt : Thm.checkThmType (Thm.assume a) = true) : GoodIn C (Thm.assume a) := by
+    (hwt : Thm.checkThmTypeSig (Thm.assume a) = true) : GoodIn C (Thm.assume a) := by
   refine ⟨hwt, ?_⟩
   · intro M ρ hρ hc hh
     exact hh a (by simp [Thm.assume])
 
 
 theorem impliesIntr_sound_in (a : Term) (th : Thm) (hth : GoodIn C th)
-    (hwt : Thm.checkThmType (Thm.impliesIntr a th) = true) : GoodIn C (Thm.impliesIntr a th) := by
+    (hwt : Thm.checkThmTypeSig (Thm.impliesIntr a th) = true) : GoodIn C (Thm.impliesIntr a th) := by
   have hw := Thm.checkThmType_typed _ hwt
   obtain ⟨ha', hp', -⟩ := Term.checked_mkImplies_inv [] _ a th.prop hw.2
   refine ⟨hwt, ?_⟩
@@ -101,7 +101,7 @@ theorem impliesIntr_sound_in (a : Term) (th : Thm) (hth : GoodIn C th)
 
 
 theorem impliesElim_sound_in (th1 th2 th : Thm) (h1 : GoodIn C th1) (h2 : GoodIn C th2)
-    (h : Thm.impliesElim th1 th2 = .ok th) (hwt : Thm.checkThmType th = true) : GoodIn C th := by
+    (h : Thm.impliesElim th1 th2 = .ok th) (hwt : Thm.checkThmTypeSig th = true) : GoodIn C th := by
   unfold Thm.impliesElim at h
   split at h
   · rename_i a b hd
@@ -118,7 +118,7 @@ theorem impliesElim_sound_in (th1 th2 th : Thm) (h1 : GoodIn C th1) (h2 : GoodIn
 
 
 theorem reflexive_sound_in (x : Term) (th : Thm)
-    (h : Thm.reflexive x = .ok th) (hwt : Thm.checkThmType th = true) : GoodIn C th := by
+    (h : Thm.reflexive x = .ok th) (hwt : Thm.checkThmTypeSig th = true) : GoodIn C th := by
   unfold Thm.reflexive at h
   obtain ⟨e, he, h⟩ := Thm.liftT_bind_ok _ _ _ h
   cases h
@@ -131,7 +131,7 @@ theorem reflexive_sound_in (x : Term) (th : Thm)
 
 
 theorem symmetric_sound_in (th1 th : Thm) (h1 : GoodIn C th1)
-    (h : Thm.symmetric th1 = .ok th) (hwt : Thm.checkThmType th = true) : GoodIn C th := by
+    (h : Thm.symmetric th1 = .ok th) (hwt : Thm.checkThmTypeSig th = true) : GoodIn C th := by
   unfold Thm.symmetric at h
   split at h
   · rename_i x y hd
@@ -149,7 +149,7 @@ theorem symmetric_sound_in (th1 th : Thm) (h1 : GoodIn C th1)
 
 
 theorem transitive_sound_in (th1 th2 th : Thm) (h1 : GoodIn C th1) (h2 : GoodIn C th2)
-    (h : Thm.transitive th1 th2 = .ok th) (hwt : Thm.checkThmType th = true) : GoodIn C th := by
+    (h : Thm.transitive th1 th2 = .ok th) (hwt : Thm.checkThmTypeSig th = true) : GoodIn C th := by
   unfold Thm.transitive at h
   split at h
   · rename_i x y1 y2 z hd1 hd2
@@ -177,7 +177,7 @@ theorem transitive_sound_in (th1 th2 th : Thm) (h1 : GoodIn C th1) (h2 : GoodIn 
 
 
 theorem equalIntr_sound_in (th1 th2 th : Thm) (h1 : GoodIn C th1) (h2 : GoodIn C th2)
-    (h : Thm.equalIntr th1 th2 = .ok th) (hwt : Thm.checkThmType th = true) : GoodIn C th := by
+    (h : Thm.equalIntr th1 th2 = .ok th) (hwt : Thm.checkThmTypeSig th = true) : GoodIn C th := by
   unfold Thm.equalIntr at h
   split at h
   · rename_i a1 b1 b2 a2 hd1 hd2
@@ -207,7 +207,7 @@ theorem equalIntr_sound_in (th1 th2 th : Thm) (h1 : GoodIn C th1) (h2 : GoodIn C
 
 
 theorem equalElim_sound_in (th1 th2 th : Thm) (h1 : GoodIn C th1) (h2 : GoodIn C th2)
-    (h : Thm.equalElim th1 th2 = .ok th) (hwt : Thm.checkThmType th = true) : GoodIn C th := by
+    (h : Thm.equalElim th1 th2 = .ok th) (hwt : Thm.checkThmTypeSig th = true) : GoodIn C th := by
   unfold Thm.equalElim at h
   split at h
   · rename_i a b hd
@@ -226,7 +226,7 @@ theorem equalElim_sound_in (th1 th2 th : Thm) (h1 : GoodIn C th1) (h2 : GoodIn C
 
 
 theorem combination_sound_in (th1 th2 th : Thm) (h1 : GoodIn C th1) (h2 : GoodIn C th2)
-    (h : Thm.combination th1 th2 = .ok th) (hwt : Thm.checkThmType th = true) : GoodIn C th := by
+    (h : Thm.combination th1 th2 = .ok th) (hwt : Thm.checkThmTypeSig th = true) : GoodIn C th := by
   unfold Thm.combination at h
   split at h
   · rename_i f g x y hd1 hd2
@@ -258,7 +258,7 @@ theorem combination_sound_in (th1 th2 th : Thm) (h1 : GoodIn C th1) (h2 : GoodIn
 
 
 theorem betaConv_sound_in (t : Term) (th : Thm)
-    (h : Thm.betaConv t = .ok th) (hwt : Thm.checkThmType th = true) : GoodIn C th := by
+    (h : Thm.betaConv t = .ok th) (hwt : Thm.checkThmTypeSig th = true) : GoodIn C th := by
   unfold Thm.betaConv at h
   obtain ⟨t', ht', h⟩ := Thm.catchTerm_bind_ok _ _ _ h
   obtain ⟨e, he, h⟩ := Thm.liftT_bind_ok _ _ _ h
@@ -278,7 +278,7 @@ theorem betaConv_sound_in (t : Term) (th : Thm)
 
 
 theorem forallElim_sound_in (s : Term) (th1 th : Thm) (h1 : GoodIn C th1)
-    (h : Thm.forallElim s th1 = .ok th) (hwt : Thm.checkThmType th = true) : GoodIn C th := by
+    (h : Thm.forallElim s th1 = .ok th) (hwt : Thm.checkThmTypeSig th = true) : GoodIn C th := by
   unfold Thm.forallElim at h
   split at h
   · rename_i x T b hd
@@ -330,7 +330,7 @@ theorem varKey_lt_two {x : Term} {k : Nat} {n : String} {T : Ty} (hx : varKey x 
   rcases varKey_cases hx with ⟨-, rfl⟩ | ⟨-, rfl⟩ <;> decide
 
 theorem forallIntr_sound_in (hcl : ClosedClass C) (x : Term) (th1 th : Thm) (h1 : GoodIn C th1)
-    (h : Thm.forallIntr x th1 = .ok th) (hwt : Thm.checkThmType th = true) : GoodIn C th := by
+    (h : Thm.forallIntr x th1 = .ok th) (hwt : Thm.checkThmTypeSig th = true) : GoodIn C th := by
   unfold Thm.forallIntr at h
   split at h
   · cases h
@@ -351,7 +351,7 @@ theorem forallIntr_sound_in (hcl : ClosedClass C) (x : Term) (th1 th : Thm) (h1 
 
 
 theorem abstraction_sound_in (hcl : ClosedClass C) (x : Term) (th1 th : Thm) (h1 : GoodIn C th1)
-    (h : Thm.abstraction x th1 = .ok th) (hwt : Thm.checkThmType th = true) : GoodIn C th := by
+    (h : Thm.abstraction x th1 = .ok th) (hwt : Thm.checkThmTypeSig th = true) : GoodIn C th := by
   unfold Thm.abstraction at h
   split at h
   · cases h
@@ -388,7 +388,7 @@ theorem abstraction_sound_in (hcl : ClosedClass C) (x : Term) (th1 th : Thm) (h1
 
 
 theorem substType_sound_in (hcl : ClosedClass C) (σ : Ty.TyInst) (th : Thm) (hth : GoodIn C th)
-    (hwt : Thm.checkThmType (Thm.substType σ th) = true) : GoodIn C (Thm.substType σ th) := by
+    (hwt : Thm.checkThmTypeSig (Thm.substType σ th) = true) : GoodIn C (Thm.substType σ th) := by
   have hw := Thm.checkThmType_typed th hth.wt
   refine ⟨hwt, ?_⟩
   · intro M ρ hρ hc hh
@@ -403,7 +403,7 @@ theorem substType_sound_in (hcl : ClosedClass C) (σ : Ty.TyInst) (th : Thm) (ht
 
 
 theorem substitution_sound_in (hcl : ClosedClass C) (inst : Term.Inst) (th1 th : Thm) (h1 : GoodIn C th1)
-    (h : Thm.substitution inst th1 = .ok th) (hwt : Thm.checkThmType th = true) : GoodIn C th := by
+    (h : Thm.substitution inst th1 = .ok th) (hwt : Thm.checkThmTypeSig th = true) : GoodIn C th := by
   obtain ⟨σ, hs, p, rfl, hF, hp, hty⟩ := Thm.substitution_spec inst th1 th h
   rw [Thm.mk'_one] at hwt ⊢
   have hw1 := Thm.checkThmType_typed th1 h1.wt
@@ -440,7 +440,7 @@ theorem substitution_sound_in (hcl : ClosedClass C) (inst : Term.Inst) (th1 th :
 premises are -/
 theorem applyRule_sound_in (hcl : ClosedClass C) (rule : String) (arg : Arg) (prems : List Thm)
     (th : Thm) (hp : ∀ p ∈ prems, GoodIn C p) (hr : applyRule rule arg prems = .ok th)
-    (hwt : Thm.checkThmType th = true) : GoodIn C th := by
+    (hwt : Thm.checkThmTypeSig th = true) : GoodIn C th := by
   unfold applyRule at hr
   split at hr
   all_goals first
@@ -473,7 +473,7 @@ theorem prim_sound_in (hcl : ClosedClass C) (rule : String) (arg : Arg) (prems :
   | ok th0 =>
     rw [hr] at h
     simp only [bind, Except.bind] at h
-    by_cases hwt : Thm.checkThmType th0 = true
+    by_cases hwt : Thm.checkThmTypeSig th0 = true
     · rw [if_pos hwt] at h
       cases h
       exact applyRule_sound_in hcl rule arg prems th hp hr hwt
@@ -558,63 +558,63 @@ theorem prim_sound_of_in (rule : String) (arg : Arg) (prems : List Thm) (th : Th
 private theorem toTop {th : Thm} (h : Good th) : GoodIn (fun _ _ => True) th := (goodIn_top_iff th).2 h
 private theorem ofTop {th : Thm} (h : GoodIn (fun _ _ => True) th) : Good th := (goodIn_top_iff th).1 h
 
-theorem assume_sound (a : Term) (hwt : Thm.checkThmType (Thm.assume a) = true) :
+theorem assume_sound (a : Term) (hwt : Thm.checkThmTypeSig (Thm.assume a) = true) :
     Good (Thm.assume a) := ofTop (assume_sound_in a hwt)
 
 theorem impliesIntr_sound (a : Term) (th : Thm) (hth : Good th)
-    (hwt : Thm.checkThmType (Thm.impliesIntr a th) = true) : Good (Thm.impliesIntr a th) :=
+    (hwt : Thm.checkThmTypeSig (Thm.impliesIntr a th) = true) : Good (Thm.impliesIntr a th) :=
   ofTop (impliesIntr_sound_in a th (toTop hth) hwt)
 
 theorem impliesElim_sound (th1 th2 th : Thm) (h1 : Good th1) (h2 : Good th2)
-    (h : Thm.impliesElim th1 th2 = .ok th) (hwt : Thm.checkThmType th = true) : Good th :=
+    (h : Thm.impliesElim th1 th2 = .ok th) (hwt : Thm.checkThmTypeSig th = true) : Good th :=
   ofTop (impliesElim_sound_in th1 th2 th (toTop h1) (toTop h2) h hwt)
 
 theorem reflexive_sound (x : Term) (th : Thm)
-    (h : Thm.reflexive x = .ok th) (hwt : Thm.checkThmType th = true) : Good th :=
+    (h : Thm.reflexive x = .ok th) (hwt : Thm.checkThmTypeSig th = true) : Good th :=
   ofTop (reflexive_sound_in x th h hwt)
 
 theorem symmetric_sound (th1 th : Thm) (h1 : Good th1)
-    (h : Thm.symmetric th1 = .ok th) (hwt : Thm.checkThmType th = true) : Good th :=
+    (h : Thm.symmetric th1 = .ok th) (hwt : Thm.checkThmTypeSig th = true) : Good th :=
   ofTop (symmetric_sound_in th1 th (toTop h1) h hwt)
 
 theorem transitive_sound (th1 th2 th : Thm) (h1 : Good th1) (h2 : Good th2)
-    (h : Thm.transitive th1 th2 = .ok th) (hwt : Thm.checkThmType th = true) : Good th :=
+    (h : Thm.transitive th1 th2 = .ok th) (hwt : Thm.checkThmTypeSig th = true) : Good th :=
   ofTop (transitive_sound_in th1 th2 th (toTop h1) (toTop h2) h hwt)
 
 theorem equalIntr_sound (th1 th2 th : Thm) (h1 : Good th1) (h2 : Good th2)
-    (h : Thm.equalIntr th1 th2 = .ok th) (hwt : Thm.checkThmType th = true) : Good th :=
+    (h : Thm.equalIntr th1 th2 = .ok th) (hwt : Thm.checkThmTypeSig th = true) : Good th :=
   ofTop (equalIntr_sound_in th1 th2 th (toTop h1) (toTop h2) h hwt)
 
 theorem equalElim_sound (th1 th2 th : Thm) (h1 : Good th1) (h2 : Good th2)
-    (h : Thm.equalElim th1 th2 = .ok th) (hwt : Thm.checkThmType th = true) : Good th :=
+    (h : Thm.equalElim th1 th2 = .ok th) (hwt : Thm.checkThmTypeSig th = true) : Good th :=
   ofTop (equalElim_sound_in th1 th2 th (toTop h1) (toTop h2) h hwt)
 
 theorem combination_sound (th1 th2 th : Thm) (h1 : Good th1) (h2 : Good th2)
-    (h : Thm.combination th1 th2 = .ok th) (hwt : Thm.checkThmType th = true) : Good th :=
+    (h : Thm.combination th1 th2 = .ok th) (hwt : Thm.checkThmTypeSig th = true) : Good th :=
   ofTop (combination_sound_in th1 th2 th (toTop h1) (toTop h2) h hwt)
 
 theorem betaConv_sound (t : Term) (th : Thm)
-    (h : Thm.betaConv t = .ok th) (hwt : Thm.checkThmType th = true) : Good th :=
+    (h : Thm.betaConv t = .ok th) (hwt : Thm.checkThmTypeSig th = true) : Good th :=
   ofTop (betaConv_sound_in t th h hwt)
 
 theorem forallElim_sound (s : Term) (th1 th : Thm) (h1 : Good th1)
-    (h : Thm.forallElim s th1 = .ok th) (hwt : Thm.checkThmType th = true) : Good th :=
+    (h : Thm.forallElim s th1 = .ok th) (hwt : Thm.checkThmTypeSig th = true) : Good th :=
   ofTop (forallElim_sound_in s th1 th (toTop h1) h hwt)
 
 theorem forallIntr_sound (x : Term) (th1 th : Thm) (h1 : Good th1)
-    (h : Thm.forallIntr x th1 = .ok th) (hwt : Thm.checkThmType th = true) : Good th :=
+    (h : Thm.forallIntr x th1 = .ok th) (hwt : Thm.checkThmTypeSig th = true) : Good th :=
   ofTop (forallIntr_sound_in closedClass_top x th1 th (toTop h1) h hwt)
 
 theorem abstraction_sound (x : Term) (th1 th : Thm) (h1 : Good th1)
-    (h : Thm.abstraction x th1 = .ok th) (hwt : Thm.checkThmType th = true) : Good th :=
+    (h : Thm.abstraction x th1 = .ok th) (hwt : Thm.checkThmTypeSig th = true) : Good th :=
   ofTop (abstraction_sound_in closedClass_top x th1 th (toTop h1) h hwt)
 
 theorem substType_sound (σ : Ty.TyInst) (th : Thm) (hth : Good th)
-    (hwt : Thm.checkThmType (Thm.substType σ th) = true) : Good (Thm.substType σ th) :=
+    (hwt : Thm.checkThmTypeSig (Thm.substType σ th) = true) : Good (Thm.substType σ th) :=
   ofTop (substType_sound_in closedClass_top σ th (toTop hth) hwt)
 
 theorem substitution_sound (inst : Term.Inst) (th1 th : Thm) (h1 : Good th1)
-    (h : Thm.substitution inst th1 = .ok th) (hwt : Thm.checkThmType th = true) : Good th :=
+    (h : Thm.substitution inst th1 = .ok th) (hwt : Thm.checkThmTypeSig th = true) : Good th :=
   ofTop (substitution_sound_in closedClass_top inst th1 th (toTop h1) h hwt)
 
 /-- a smaller class has more good sequents -/
@@ -642,11 +642,11 @@ theorem Thm.canProve_iff (r st : Thm) : Thm.canProve r st = true ↔
 /-- a sequent that `can_prove` a sequent passing `check_thm_type` passes it too (its terms are
 alpha-equivalent to terms of the other) -/
 theorem canProve_wt (r st : Thm) (hc : Thm.canProve r st = true)
-    (hst : Thm.checkThmType st = true) : Thm.checkThmType r = true := by
+    (hst : Thm.checkThmTypeSig st = true) : Thm.checkThmTypeSig r = true := by
   obtain ⟨hp, hh⟩ := (Thm.canProve_iff r st).1 hc
-  obtain ⟨⟨t1, t2⟩, s0⟩ := (Thm.checkThmType_iff st).1 hst
+  obtain ⟨⟨t1, t2⟩, s0⟩ := (Thm.checkThmTypeSig_iff st).1 hst
   obtain ⟨s1, s2⟩ := (Thm.sigOK_iff st).1 s0
-  rw [Thm.checkThmType_iff, Thm.sigOK_iff]
+  rw [Thm.checkThmTypeSig_iff, Thm.sigOK_iff]
   refine ⟨⟨fun h hm => ?_, ?_⟩, fun h hm => ?_, ?_⟩
   · obtain ⟨h', hm', ha⟩ := hh h hm
     rw [Term.checkedGetType_aeq h h' ha]; exact t1 h' hm'
@@ -657,7 +657,7 @@ theorem canProve_wt (r st : Thm) (hc : Thm.canProve r st = true)
 
 /-- weakening: what is kept for a step with a stated sequent is good when the computed one is -/
 theorem canProve_good (r st : Thm) (hc : Thm.canProve r st = true)
-    (hst : Thm.checkThmType st = true) (hr : GoodIn C r) : GoodIn C st := by
+    (hst : Thm.checkThmTypeSig st = true) (hr : GoodIn C r) : GoodIn C st := by
   obtain ⟨hp, hh⟩ := (Thm.canProve_iff r st).1 hc
   refine ⟨hst, fun M ρ hρ hc' hyp => ?_⟩
   apply (holds_aeq M ρ _ _ hp).1
@@ -672,7 +672,7 @@ theorem applyRuleAx_sound_in (hcl : ClosedClass C) (axs : List (String × Thm))
     (hax : ∀ p ∈ axs, GoodIn C p.2) (hvar : ∀ n T M, ValidIn C M (Thm.mkVAR n T))
     (rule : String) (arg : ArgAx) (prems : List Thm) (th : Thm)
     (hp : ∀ p ∈ prems, GoodIn C p)
-    (h : applyRuleAx axs rule arg prems = .ok th) (hwt : Thm.checkThmType th = true) :
+    (h : applyRuleAx axs rule arg prems = .ok th) (hwt : Thm.checkThmTypeSig th = true) :
     GoodIn C th := by
   unfold applyRuleAx at h
   split at h
